@@ -19,6 +19,8 @@ VARINT = "h3::proto::varint::VarInt"
 
 
 def run(ctx):
+    # the codes this property names are the registry values (the rules below speak of them by name)
+    shared.error_code_values(ctx, "C18-b", ("H3_DATAGRAM_ERROR",))
     # the quarter stream id in front of every datagram is a varint: size() and encode() must agree with RFC 9000 (shared with C16)
     _c16.varint_form_tables(ctx, "C18-a")
     prog = ctx.prog
